@@ -347,6 +347,7 @@ def run(ctx):
         for a in list(range(1, 70)) + [2036, 2040, 2041, 2043, 2047, 2048, 4088, 4091]:
             cases.append({'kind': 'frame_seq', 'lens': [a, (a * 7) % 61 + 1, 5], 'seg': seg})
     cases += [{'kind': 'frame_ref', 'len': n, 'pad': p, 'fill': n} for n in range(1, 300 if q else 1200) for p in range(0, 4)]
+    cases += [{'kind': 'frame_ref', 'len': n, 'pad': p, 'fill': n} for n in (1, 2, 3, 4, 5, 6, 7, 8, 19, 188, 1000) for p in range(0, 32)]     # every legal padding length 4..255
     ctx.map(cases, chunk=2000)
     f = 1 if q else 15
     ctx.hyp('strat_bigint', 20000 * f, label=1)
